@@ -48,14 +48,34 @@ Definition frames_and_info (rx : rx_oracle) (pk : N -> bool) (sel : selector)
 
 Definition saved := list saved_frame.      (* the int-keyed part of the pickled mapping, in dict order *)
 
+(*  with _open_file(filename, 'wb') as f:
+        pickle.dump(frames_and_exception_info, f, protocol=PICKLE_PROTOCOL)
+    and, as repaired by fixes/C17N1-*.diff (`serialize_first`):
+    pickled_data = pickle.dumps(frames_and_exception_info, protocol=PICKLE_PROTOCOL)
+    with _open_file(filename, 'wb') as f:
+        f.write(pickled_data)                                                             *)
+Definition write_mapping {data : Type} (serialize_first : bool) (d : data) (open_ok dump_ok : bool)
+           (st : fs data) : outcome * fs data :=
+  if serialize_first then (if dump_ok then open_file_and_dump d open_ok true st else (BodyFailed, st))
+  else open_file_and_dump d open_ok dump_ok st.
+
+(* _get_exception_info, repaired: the exception object is stored only if pickle.dumps(exception_obj)
+   succeeds, otherwise the placeholder string; unrepaired: always the object *)
+Definition exception_object_stored (n1_repaired exc_pk : bool) : bool := negb n1_repaired || exc_pk.
+(* ... hence whether the dump of the whole mapping succeeds *)
+Definition mapping_dump_ok (n1_repaired exc_pk : bool) : bool := n1_repaired || exc_pk.
+
 (* saveframe(filename, frames, variables, exclude_variables) / bin/saveframe main():
    validation, selection and per-variable pickling happen before the file is opened;
-   `dump_ok` = pickle.dump of the whole mapping (which holds the exception object) succeeds *)
-Definition saveframe (rx : rx_oracle) (valid : str -> bool) (pk : N -> bool) (script escaped : bool)
+   `exc_pk` = the exception object can be pickled.  `escaped` / `n1_repaired` select the behaviour
+   before / after fixes/C17N2-*.diff and fixes/C17N1-*.diff (chosen by the harness from the status of
+   the findings) *)
+Definition saveframe (rx : rx_oracle) (valid : str -> bool) (pk : N -> bool) (script escaped n1_repaired : bool)
            (fa : frames_arg) (va ea : vars_arg) (curframe : option frame) (e : exn)
-           (open_ok dump_ok : bool) (st : fs saved) : res (outcome * saved) * fs saved :=
+           (open_ok exc_pk : bool) (st : fs saved) : res (outcome * saved) * fs saved :=
   match bind (validate_arguments valid script (default_frames escaped fa curframe) va ea) (fun '(sel, inc, exc) =>
              frames_and_info rx pk sel inc exc e) with
   | Err er => (Err er, st)
-  | Ok d => let '(o, st') := open_file_and_dump d open_ok dump_ok st in (Ok (o, d), st')
+  | Ok d => let '(o, st') := write_mapping n1_repaired d open_ok (mapping_dump_ok n1_repaired exc_pk) st in
+            (Ok (o, d), st')
   end.
